@@ -162,6 +162,9 @@ Example xmcd_wf_nonvacuous : xmcd_wf 1 15 1 (repeat 7%N 60).
 Proof. unfold xmcd_wf. cbn. lia. Qed.
 
 (* ------------------------------------------------------------------ S4a: inversion of the build pipeline *)
+Lemma ok_inj0 {A} (a b : A) : Ok a = Ok b -> a = b.
+Proof. now inversion 1. Qed.
+
 Lemma bind_ok {A B} (r : res A) (f : A -> res B) b : bind r f = Ok b -> exists a, r = Ok a /\ f a = Ok b.
 Proof. destruct r; cbn; [eauto | discriminate]. Qed.
 
@@ -188,20 +191,21 @@ Proof.
   - intros Ha. rewrite Ha in Hc. now inversion Hc.
 Qed.
 
-Lemma hab_finish_inv c q b : hab_finish c q = Ok b ->
+Lemma hab_update_inv c q cmds r : hab_update c q cmds = Ok r ->
   exists csf0 cmds1 app_fin eb nonce mac cmds2 cmds3 csf_b,
-    csf_export (h_ver c) (q_cmds0 q) = Ok csf0 /\
-    (if c_enc c then hab_encrypt c q (padded_image c q csf0) = Ok (cmds1, app_fin, nonce, mac) /\ eb = enc_blocks c
-     else cmds1 = q_cmds0 q /\ app_fin = c_app_bin c /\ eb = [] /\ nonce = [] /\ mac = []) /\
-    upd_auth 1 (add_blocks (signed_blocks c q) (Some (sigimg (h_ver c) (h_sig_data c)))) cmds1 = Some cmds2 /\
+    csf_export (h_ver c) cmds = Ok csf0 /\
+    (if c_enc c then hab_encrypt c cmds (padded_image c q csf0) = Ok (cmds1, app_fin, nonce, mac) /\ eb = enc_blocks c
+     else cmds1 = cmds /\ app_fin = c_app_bin c /\ eb = [] /\ nonce = [] /\ mac = []) /\
+    upd_auth 1 (set_blocks (signed_blocks c q) (Some (sigimg (h_ver c) (h_sig_data c)))) cmds1 = Some cmds2 /\
     existsb (fun b => hlen (padded_image c q csf0) <? fst b - h_start c + snd b) (signed_blocks c q) = false /\
-    upd_auth 0 (add_blocks [] (Some (sigimg (h_ver c) (h_sig_csf c)))) cmds2 = Some cmds3 /\
+    upd_auth 0 (set_blocks [] (Some (sigimg (h_ver c) (h_sig_csf c)))) cmds2 = Some cmds3 /\
     csf_export (h_ver c) cmds3 = Ok csf_b /\
     segs_ok [] (all_segs c q csf0 (c_app_bin c)) = true /\
-    b = mk_built c q (place (all_segs c q csf_b app_fin)) (signed_blocks c q) eb
-                 (tbs_of c (padded_image c q csf0) (signed_blocks c q)) (csf_base (h_ver c) cmds3) csf_b app_fin nonce mac.
+    segs_ok [] (all_segs c q csf_b app_fin) = true /\
+    r = (cmds3, mk_built c q (place (all_segs c q csf_b app_fin)) (signed_blocks c q) eb
+                 (tbs_of c (padded_image c q csf0) (signed_blocks c q)) (csf_base (h_ver c) cmds3) csf_b app_fin nonce mac).
 Proof.
-  unfold hab_finish. intros H. apply bind_ok in H as (csf0 & H0 & H).
+  unfold hab_update. intros H. apply bind_ok in H as (csf0 & H0 & H).
   destruct (segs_ok [] (all_segs c q csf0 (c_app_bin c))) eqn:Es0; cbn [negb] in H; [|discriminate].
   apply bind_ok in H as (e & He & H).
   destruct e as [[[[cmds1 app_fin] eb] nonce] mac].
@@ -209,14 +213,33 @@ Proof.
   destruct (existsb _ (signed_blocks c q)) eqn:Ex; [discriminate|].
   destruct (upd_auth 0 _ cmds2) as [cmds3|] eqn:E3; [|discriminate].
   apply bind_ok in H as (csf_b & Hc & H).
-  destruct (segs_ok [] (all_segs c q csf_b app_fin)); cbn [negb] in H; [|discriminate].
-  inversion H; subst b; clear H.
+  destruct (segs_ok [] (all_segs c q csf_b app_fin)) eqn:Es1; cbn [negb] in H; [|discriminate].
+  inversion H; subst r; clear H.
   exists csf0, cmds1, app_fin, eb, nonce, mac, cmds2, cmds3, csf_b.
   repeat split; try assumption.
   destruct (c_enc c).
-  - destruct (hab_encrypt c q (padded_image c q csf0)) as [[[[a1 a2] a3] a4]|] eqn:Ee; cbn in He; [|discriminate].
+  - destruct (hab_encrypt c cmds (padded_image c q csf0)) as [[[[a1 a2] a3] a4]|] eqn:Ee; cbn in He; [|discriminate].
     inversion He; subst. split; reflexivity.
   - inversion He; subst. repeat split; reflexivity.
+Qed.
+
+Lemma hab_finish_inv c q b : hab_finish c q = Ok b ->
+  exists csf0 cmds1 app_fin eb nonce mac cmds2 cmds3 csf_b,
+    csf_export (h_ver c) (q_cmds0 q) = Ok csf0 /\
+    (if c_enc c then hab_encrypt c (q_cmds0 q) (padded_image c q csf0) = Ok (cmds1, app_fin, nonce, mac) /\ eb = enc_blocks c
+     else cmds1 = q_cmds0 q /\ app_fin = c_app_bin c /\ eb = [] /\ nonce = [] /\ mac = []) /\
+    upd_auth 1 (set_blocks (signed_blocks c q) (Some (sigimg (h_ver c) (h_sig_data c)))) cmds1 = Some cmds2 /\
+    existsb (fun b => hlen (padded_image c q csf0) <? fst b - h_start c + snd b) (signed_blocks c q) = false /\
+    upd_auth 0 (set_blocks [] (Some (sigimg (h_ver c) (h_sig_csf c)))) cmds2 = Some cmds3 /\
+    csf_export (h_ver c) cmds3 = Ok csf_b /\
+    segs_ok [] (all_segs c q csf0 (c_app_bin c)) = true /\
+    b = mk_built c q (place (all_segs c q csf_b app_fin)) (signed_blocks c q) eb
+                 (tbs_of c (padded_image c q csf0) (signed_blocks c q)) (csf_base (h_ver c) cmds3) csf_b app_fin nonce mac.
+Proof.
+  unfold hab_finish. intros H. destruct (hab_update c q (q_cmds0 q)) as [r|] eqn:Eu; cbn [res_map] in H; [|discriminate].
+  apply ok_inj0 in H. subst b.
+  apply hab_update_inv in Eu as (csf0 & cmds1 & app_fin & eb & nonce & mac & cmds2 & cmds3 & csf_b & H0 & H1 & H2 & H3 & H4 & H5 & H6 & _ & ->).
+  exists csf0, cmds1, app_fin, eb, nonce, mac, cmds2, cmds3, csf_b. repeat split; assumption.
 Qed.
 
 Lemma hab_build_inv c b : hab_build c = Ok b ->
@@ -611,8 +634,8 @@ Proof.
   destruct (h_flags c =? 12) eqn:E12; [apply Z.eqb_eq in E12; rewrite E12; reflexivity | discriminate].
 Qed.
 
-Lemma hab_encrypt_facts c q img cmds1 ct nonce mac :
-  hab_encrypt c q img = Ok (cmds1, ct, nonce, mac) -> wf_bytes (h_dek c) ->
+Lemma hab_encrypt_facts c cmds img cmds1 ct nonce mac :
+  hab_encrypt c cmds img = Ok (cmds1, ct, nonce, mac) -> wf_bytes (h_dek c) ->
   ct ++ mac = ccm_encrypt (aes_enc (h_dek c)) nonce [] (Z.to_nat (h_mac_len c))
                           (hslice img (h_ivt_off c + c_app_off c) (h_ivt_off c + c_app_off c + hlen (c_app_bin c))) /\
   length ct = length (hslice img (h_ivt_off c + c_app_off c) (h_ivt_off c + c_app_off c + hlen (c_app_bin c))) /\
@@ -625,7 +648,7 @@ Proof.
             && ccm_len_ok nonce0 (length plain) && aes_key_ok (h_dek c)) eqn:Ec; cbn [negb] in H; [|discriminate].
   apply and_fits in Ec as [Ec Ek]. apply and_fits in Ec as [Ec _]. apply and_fits in Ec as [Ec Et].
   apply and_fits in Ec as [_ En].
-  destruct (upd_auth 2 _ (q_cmds0 q)); [|discriminate]. apply ok_inj in H. inversion H; subst; clear H.
+  destruct (upd_auth 2 _ cmds); [|discriminate]. apply ok_inj in H. inversion H; subst; clear H.
   assert (Hn : (length nonce0 <= 14)%nat) by (unfold hlen in En; lia).
   assert (Ht : (Z.to_nat (h_mac_len c) <= 16)%nat) by (unfold ccm_tag_ok in Et; lia).
   assert (HE : forall b, length b = 16%nat -> length (aes_enc (h_dek c) b) = 16%nat)
@@ -660,7 +683,7 @@ Proof.
   apply hab_build_inv in Hb as (q' & Hq' & Hb). rewrite Hq in Hq'. apply ok_inj in Hq'; subst q'. rewrite Ha in Hb.
   apply hab_finish_inv in Hb as (csf0 & cmds1 & app_fin & eb & nonce & mac & cmds2 & cmds3 & csf_b & H0 & H1 & _ & _ & _ & _ & Hso & Hbb).
   rewrite He in H1. destruct H1 as [Henc ->]. subst b. cbn [mk_built b_image b_app b_mac b_nonce b_csf b_enc].
-  pose proof (hab_encrypt_facts c q _ _ _ _ _ Henc Hw) as (F1 & F2 & F3 & F4 & F5).
+  pose proof (hab_encrypt_facts c _ _ _ _ _ _ Henc Hw) as (F1 & F2 & F3 & F4 & F5).
   rewrite padded_app_slice in F1, F2 by assumption.
   assert (Hl : hlen app_fin = hlen (c_app_bin c)) by (unfold hlen; lia).
   rewrite (auth_place c q csf_b app_fin) by assumption.
